@@ -111,7 +111,35 @@ STDLIB_CLIENTS = {
     "late_import": "vq_sink(1)\nimport os\nvq_sink(os.sep)\n",
     "import_in_loop": "r = []\nfor i in range(2):\n    import json\n    r.append(json)\nvq_sink(*r)\n",
     "conditional_alias": "try:\n    import json as serializer\nexcept ImportError:\n    import pickle as serializer\nvq_sink(serializer)\n",
+    # un-aliased dotted imports bind the ROOT name: local imports whose root name is bound otherwise in the module (family
+    # added after the seeded change C18-dotted-import-root-name-guard), for movable (os.path, urllib.parse,
+    # logging.handlers) and non-movable (json.decoder) modules, plus controls without a clash
+    "local_dotted_param_default": "def g(os=None):\n    if os is None:\n        import os.path\n    return os.path.join('a', 'b')\nvq_sink(g())\n",
+    "local_dotted_param_used": "import types\ndef g(os):\n    if os is None:\n        import os.path\n    return os.path.sep\nvq_sink(g(types.SimpleNamespace(path=types.SimpleNamespace(sep='|'))), g(None))\n",
+    "local_dotted_shadowed_global": "os = 'client os'\ndef g():\n    import os.path\n    return os.path.sep\nvq_sink(g(), os)\n",
+    "local_dotted_def_named_root": "def urllib():\n    return 'fn'\ndef g():\n    import urllib.parse\n    return urllib.parse.quote\nvq_sink(g(), urllib())\n",
+    "local_dotted_class_named_root": "class logging:\n    INFO = 'mine'\ndef g():\n    import logging.handlers\n    return logging.handlers\nvq_sink(g(), logging.INFO)\n",
+    "local_dotted_no_clash": "def g():\n    import os.path\n    return os.path.join\nvq_sink(g())\n",
+    "local_dotted_as_with_clash": "os = 1\ndef g():\n    import os.path as osp\n    return osp.sep\nvq_sink(g(), os)\n",
+    "local_dotted_unmovable": "json = 'mine'\ndef g():\n    import json.decoder\n    return json.decoder.JSONDecoder\nvq_sink(g(), json)\n",
+    "local_dotted_also_toplevel": "import xml.dom\nxml_doc = xml.dom\ndef g(xml=None):\n    if xml is None:\n        import xml.dom\n    return xml.dom\nvq_sink(g(), xml_doc)\n",
+    "local_from_shadowed_global": "join = 'x'\ndef g():\n    from os.path import join\n    return join\nvq_sink(g(), join)\n",
+    "local_plain_param_same_name": "def g(json=None):\n    if json is None:\n        import json\n    return json\nvq_sink(g())\n",
+    "local_plain_in_nested_function": "sys = 'client sys'\ndef outer():\n    def inner():\n        import sys\n        return sys\n    return inner()\nvq_sink(outer(), sys)\n",
+    "local_import_in_method": "os = 0\nclass K:\n    def m(self):\n        import os\n        return os\nvq_sink(K().m(), os)\n",
+    "local_import_then_global_stmt": "def g():\n    global json\n    import json\n    return json\nvq_sink(g(), json)\n",
+    # dotted import used through its root name only
+    "dotted_only_root_used": "import logging.handlers\nvq_sink(logging.INFO, logging)\n",
+    "dotted_root_and_sub_used": "import os.path\nimport os\nvq_sink(os.sep, os.path)\n",
+    "dotted_two_subs": "import xml.dom\nimport xml.sax\nvq_sink(xml.dom, xml.sax, xml)\n",
+    # two imports binding the same name: the later one wins
+    "same_asname_two_modules": "import json as m\nimport pickle as m\nvq_sink(m)\n",
+    "same_alias_in_one_from": "from os.path import join as x, basename as x\nvq_sink(x)\n",
+    "same_alias_two_froms": "from os.path import join as x\nfrom os.path import basename as x\nvq_sink(x)\n",
+    "same_name_two_modules": "from posixpath import join\nfrom ntpath import join\nvq_sink(join)\n",
+    "module_import_below_rebinding": "def helper():\n    return 1\njson = 'a string'\nvq_sink(json)\nimport json\nvq_sink(json, helper())\n",
 }
+STDLIB_PART = 6
 DRIVERS = ["tracing.fix_starred_imports", "tracing.fix_reimported_names", "fixes.remove_unused_imports", "fixes.fix_duplicate_imports",
            "fixes.sort_imports", "fixes.move_imports_to_toplevel", "fixes.add_missing_imports",
            "format_code:default", "format_code:keep_imports", "format_code:safe"]
@@ -130,7 +158,8 @@ def units(tier):
     for layout in LAYOUTS:
         for mod in entry_modules(layout):
             yield {"layout": layout, "mod": mod}
-    yield {"layout": "direct", "mod": None}
+    for part in range(0, len(STDLIB_CLIENTS), STDLIB_PART):
+        yield {"layout": "direct", "mod": None, "part": part}
 
 
 def materialise(layout):
@@ -213,7 +242,7 @@ def check(layout, mod, cname, driver):
 def run_unit(unit):
     res = {"n": 0, "nontrivial": [], "viol": [], "stats": {}, "samples": []}
     st = res["stats"]
-    clients = CLIENTS if unit["mod"] else STDLIB_CLIENTS
+    clients = CLIENTS if unit["mod"] else list(STDLIB_CLIENTS)[unit["part"] : unit["part"] + STDLIB_PART]
     for cname in clients:
         for driver in DRIVERS:
             v, status = check(unit["layout"], unit["mod"], cname, driver)
